@@ -15,12 +15,13 @@
 (*   N  name family    names that look like something else (" (deleted)",  *)
 (*      "..b") in the string, the cwd, the descriptor's directory, aliases *)
 (*   L  link family    every link of every forest, last and in the middle  *)
+(*   D  dynamic family  call, exchange of two nodes, same call again       *)
 (*   M  memory family  representative calls x every placement of the       *)
 (*      string relative to a page boundary x short/long string             *)
 (***************************************************************************)
 EXTENDS PathWalk, Json
 
-CONSTANTS Seed, KFlags, KKinds, AForests,
+CONSTANTS Seed, KFlags, KKinds, AForests, DForests, DFull,
           Rest,             \* TRUE: write the forests, the sampled W cases and the families K and A
           A3Part, A3Parts   \* slice A3Part of A3Parts of the exhaustive W block (0: none)
 
@@ -73,8 +74,10 @@ WithPre(ps, x, d) ==     \* x in 0..7: 0..3 no alias
 OFlags == <<"O_CREAT", "O_EXCL", "O_TRUNC", "O_APPEND", "O_NOFOLLOW", "O_DIRECTORY", "O_CLOEXEC", "O_PATH">>
 Bits(v, names) == { names[j] : j \in { j \in DOMAIN names : (v \div (2 ^ (j - 1))) % 2 = 1 } }
 
+NoSwap == [p |-> <<>>, q |-> <<>>]
 Mk(fam, f, cwd, sc, acc, fl, d1, p1, d2, p2) ==
   [fam |-> fam, f |-> f, cwd |-> cwd, sc |-> sc, args |-> Sig[sc], acc |-> acc, fl |-> SetToSeq(fl),
+   swap |-> NoSwap,
    d1 |-> IF HasArg(sc, "d1") THEN d1 ELSE NoD, p1 |-> p1,
    d2 |-> IF HasArg(sc, "d2") THEN d2 ELSE NoD, p2 |-> IF HasArg(sc, "p2") THEN p2 ELSE NoP]
 
@@ -167,7 +170,32 @@ LCases ==
           { Mk("L", f, R, sc, 0, {}, DK(1, 1), PS(TRUE, q \o x, FALSE), NoD, NoP) :
               q \in LinksOf(F), x \in {<<>>, <<"a">>, <<"..">>}, sc \in {"stat", "openat"} } : f \in 1..NF }
 
-Cases == WAll3 \o (IF Rest THEN WSel \o SetToSeq(KCases) \o SetToSeq(ACases) \o SetToSeq(MCases)
+\* ---- D: dynamic forest.  For every ordered pair (p, q) of nodes in one directory of which at least one
+\* is a link: call 1 through p in the forest as generated, then the SAME call while p and q are exchanged
+\* (the probe exchanges them before the call and back after it), both in one traced run.
+DTails == IF DFull THEN {<<>>, <<"a">>, <<"..">>} ELSE {<<>>, <<"a">>}
+DPairs(F) == { pq \in (DOMAIN F) \X (DOMAIN F) :
+                 /\ pq[1] # pq[2] /\ Len(pq[1]) > 2 /\ Front(pq[1]) = Front(pq[2])
+                 /\ "link" \in {F[pq[1]].t, F[pq[2]].t} }
+DSeq(f) == LET F  == Forest(f)
+               ps == SetToSeq(DPairs(F) \X DTails)
+               C(k, sw) == LET pq == ps[k][1]
+                               x  == ps[k][2]
+                               sc == IF x = <<"a">> THEN "openat" ELSE "stat"
+                               \* alternately absolute and relative to the cwd R
+                               nm == IF k % 2 = 0 THEN PS(TRUE, pq[1] \o x, FALSE)
+                                     ELSE PS(FALSE, SubSeq(pq[1], 3, Len(pq[1])) \o x, FALSE)
+                           IN [Mk("D", f, R, sc, 0, {}, DK(1, 1), nm, NoD, NoP)
+                                 EXCEPT !.swap = IF sw THEN [p |-> pq[1], q |-> pq[2]] ELSE NoSwap]
+           IN [ j \in 1..(2 * Len(ps)) |-> C((j + 1) \div 2, j % 2 = 0) ]
+DCases == IF DForests = {} THEN <<>>
+          ELSE LET fs == SetToSeq(DForests) IN FlattenSeq([ i \in 1..Len(fs) |-> DSeq(fs[i]) ])
+\* the exchange is an involution on every pair used
+ASSUME \A f \in DForests : \A pq \in DPairs(Forest(f)) :
+          /\ Unrelated(pq[1], pq[2])
+          /\ Swap(Swap(Forest(f), pq[1], pq[2]), pq[1], pq[2]) = Forest(f)
+
+Cases == WAll3 \o (IF Rest THEN DCases \o WSel \o SetToSeq(KCases) \o SetToSeq(ACases) \o SetToSeq(MCases)
                                 \o SetToSeq(NCases) \o SetToSeq(LCases) ELSE <<>>)
 
 Forests == [ i \in 1..NF |-> [id |-> i,
